@@ -10,6 +10,7 @@ import EaselModel.Vec.GenOrder
 import EaselModel.Vec.CompareReal
 import EaselModel.Vec.GenFloat
 import EaselModel.Vec.GenReal
+import EaselModel.Vec.GenMix
 /-! # C20 — vector and SIMD numeric kernels compute their definition for every input
 
 Property theorems only (proofs are glue on the lemmas of `Simd/Lemmas.lean`, `Simd/LogExpLemmas.lean`, `Vec/Real.lean`, `Vec/XReal.lean`).
@@ -604,6 +605,75 @@ theorem gen_DCDF_inplace_real (p : Array ℝ) (h : p.size ≠ 0) :
   ⟨Vec.gen_dcdf_inplace_real p h, Vec.gen_dcdf_inplace_real p h⟩
 theorem gen_DCDF_empty (c : Array ℝ) : esl_vec_DCDF (#[] : Array ℝ) 0 c = none := rfl
 example : (#[0.5, 0.5] : Array ℝ).size ≠ 0 := by decide
+
+/-! ### the probability / log-space routines over `float`, as REGENERATED from esl_vectorops.c on every run
+
+The translation keeps the C text's two precisions apart: binary32 cells `α`, and the sub-expressions C's usual arithmetic conversions evaluate
+in `double` (`sum != 0.0`, `1. / (float) n`, `vec[i] > 0.`, `vec[i] > max - 50.`, `-1.*denom`) at a second type `ω` (`VMix.widen` exact,
+`VMix.narrow` = the one rounding).  The driver runs exactly these definitions at `VMix Float32 Float` against the C functions, bit for bit.
+The theorems read them over exact arithmetic, where the two types coincide and both conversions are the identity (`VMix.same`). -/
+section genF
+attribute [local instance] VMix.same
+/-- where the `float` routine's C text is the `double` routine's (up to the libm suffix and a promoted comparison), the two regenerated
+    definitions are the same function: `FExp`, `FExp2`, `FLog`, `FLog2`, and — dividing each cell by the Kahan sum, `1/n` cells when the
+    sum is zero — `FNorm`; `FEntropy` -/
+theorem gen_F_eq_D {α : Type} [VInf α] (v : Array α) (n : Int) :
+    esl_vec_FExp v n = esl_vec_DExp v n ∧ esl_vec_FExp2 v n = esl_vec_DExp2 v n ∧ esl_vec_FLog v n = esl_vec_DLog v n ∧
+    esl_vec_FLog2 v n = esl_vec_DLog2 v n ∧ esl_vec_FNorm v n = esl_vec_DNorm v n ∧ esl_vec_FEntropy v n = esl_vec_DEntropy v n :=
+  ⟨rfl, rfl, rfl, rfl, rfl, rfl⟩
+/-- the regenerated `esl_vec_FNorm` performs the DIVISION `vec[i] / sum` on every cell (sum ≠ 0), resp. stores `1/n` (sum = 0) -/
+theorem gen_FNorm {α : Type} [VNum α] (hu : ∀ n : Nat, (VNum.uniform n : α) = VNum.ofNat 1 / VNum.ofNat n) (v : Array α) :
+    ∃ r, esl_vec_FNorm v v.size = some r ∧ r.toList = norm v.toList ∧
+      (VNum.eq (Vec.sum v.toList) (VNum.ofNat 0 : α) = false → r.toList = v.toList.map (· / Vec.sum v.toList)) := by
+  obtain ⟨r, hr, hl⟩ := Vec.gen_DNorm hu v
+  refine ⟨r, by rw [Vec.norm_FD]; exact hr, hl, fun hz => ?_⟩
+  rw [hl]; simp [Vec.norm, hz]
+/-- … and so does `esl_vec_DNorm` -/
+theorem gen_DNorm_divides {α : Type} [VNum α] (hu : ∀ n : Nat, (VNum.uniform n : α) = VNum.ofNat 1 / VNum.ofNat n) (v : Array α)
+    (hz : VNum.eq (Vec.sum v.toList) (VNum.ofNat 0 : α) = false) :
+    ∃ r, esl_vec_DNorm v v.size = some r ∧ r.toList = v.toList.map (· / Vec.sum v.toList) := by
+  obtain ⟨r, hr, hl⟩ := Vec.gen_DNorm hu v
+  exact ⟨r, hr, by rw [hl]; simp [Vec.norm, hz]⟩
+theorem gen_FLogSum {α : Type} [VInf α] (hw : ∀ m x : α, VInf.inWindow m x = VOrd.lt (m - VNum.ofNat 50) x) (v : Array α) :
+    esl_vec_FLogSum v v.size = logSum v.toList ∧ esl_vec_FLog2Sum v v.size = log2Sum v.toList := ⟨Vec.gen_FLogSum hw v, Vec.gen_FLog2Sum hw v⟩
+theorem gen_FLogNorm {α : Type} [VInf α] (hu : ∀ n : Nat, (VNum.uniform n : α) = VNum.ofNat 1 / VNum.ofNat n)
+    (hw : ∀ m x : α, VInf.inWindow m x = VOrd.lt (m - VNum.ofNat 50) x) (v : Array α) :
+    (esl_vec_FLogNorm v v.size).map Array.toList = logNorm v.toList ∧ (esl_vec_FLog2Norm v v.size).map Array.toList = log2Norm v.toList :=
+  ⟨Vec.gen_FLogNorm hu hw v, Vec.gen_FLog2Norm hu hw v⟩
+
+/-- over the reals: `FNorm` divides every cell by the sum and the result sums to 1; `FEntropy` is `-Σ p log2 p` -/
+theorem gen_FNorm_real (v : Array ℝ) (h : v.toList.sum ≠ 0) :
+    ∃ r, esl_vec_FNorm v v.size = some r ∧ r.toList = v.toList.map (· / v.toList.sum) ∧ r.toList.sum = 1 := by
+  rw [Vec.norm_FD]; exact gen_DNorm_real v h
+theorem gen_FEntropy_real (v : Array ℝ) :
+    esl_vec_FEntropy v v.size = some ((v.toList.map fun x => if 0 < x then -(x * Real.logb 2 x) else 0).sum) := by
+  rw [Vec.entropy_FD]; exact gen_DEntropy_real v
+section atWinF
+attribute [local instance] winF
+theorem xr_uniform_F (n : Nat) : (VNum.uniform n : XR) = VNum.ofNat 1 / VNum.ofNat n := by
+  show XR.div (XR.fin 1) (XR.fin n) = XR.div (XR.fin ((1 : ℕ) : ℝ)) (XR.fin (n : ℝ)); simp
+theorem xr_window_F (m x : XR) : VInf.inWindow m x = VOrd.lt (m - VNum.ofNat 50) x := by
+  show XR.lt (XR.sub m (XR.fin 50)) x = XR.lt (XR.sub m (XR.fin ((50 : ℕ) : ℝ))) x; simp
+/-- `esl_vec_FLogSum` as regenerated is `log Σ exp` within `n e^-50` (the `float` window), `-inf` entries allowed; all `-inf` ↦ `-inf` -/
+theorem gen_FLogSum_spec (v : Array XR) (hv : ∀ x ∈ v.toList, x.isLogP) (hfin : finites v.toList ≠ []) :
+    ∃ r : ℝ, esl_vec_FLogSum v v.size = some (XR.fin r) ∧
+      |r - Real.log ((finites v.toList).map Real.exp).sum| ≤ v.toList.length * Real.exp (-50) := by
+  rw [Vec.gen_FLogSum xr_window_F v]; exact Vec.logSum_spec v.toList hv hfin
+theorem gen_FLog2Sum_spec (v : Array XR) (hv : ∀ x ∈ v.toList, x.isLogP) (hfin : finites v.toList ≠ []) :
+    ∃ r : ℝ, esl_vec_FLog2Sum v v.size = some (XR.fin r) ∧
+      |r - Real.logb 2 ((finites v.toList).map fun a => (2 : ℝ) ^ a).sum| ≤ v.toList.length * (2 : ℝ) ^ (-50 : ℝ) / Real.log 2 := by
+  rw [Vec.gen_FLog2Sum xr_window_F v]; exact Vec.log2Sum_spec v.toList hv hfin
+theorem gen_FLogSum_all_ninf (v : Array XR) (hne : v.toList ≠ []) (hv : ∀ x ∈ v.toList, x = XR.ninf) : esl_vec_FLogSum v v.size = some XR.ninf := by
+  rw [Vec.gen_FLogSum xr_window_F v]; exact Vec.logSum_all_ninf v.toList hne hv
+/-- `esl_vec_FLogNorm` as regenerated is the softmax, which sums to 1 -/
+theorem gen_FLogNorm_spec (v : Array XR) (hv : ∀ x ∈ v.toList, x.isLogP) (hfin : finites v.toList ≠ []) :
+    (esl_vec_FLogNorm v v.size).map Array.toList = some ((softmax v.toList).map XR.fin) ∧ (softmax v.toList).sum = 1 := by
+  rw [Vec.gen_FLogNorm xr_uniform_F xr_window_F v]; exact Vec.logNorm_spec v.toList hv hfin
+end atWinF
+example : (#[1, 2, 3] : Array ℝ).toList.sum ≠ 0 := by norm_num
+example : VNum.eq (Vec.sum [(1 : ℝ), 2]) (VNum.ofNat 0 : ℝ) = false := by
+  rw [Vec.sum_eq_real]; show decide ((1 : ℝ) + (2 + 0) = ((0 : ℕ) : ℝ)) = false; norm_num
+end genF
 
 end generated
 
